@@ -156,6 +156,17 @@ SPECS += [
                                                   '((_, %validated), _)', ['validated'], [0], ['nat'], {1: '{}', 2: 'validated'})}),
 ]
 
+# WBS.start / WBS.end (wbs.py): earliest start / latest end over the root tasks of a (scheduled) WBS
+def wbs_date(func, coq, attr, getter):
+    return dict(file='wbs.py', cls='WBS', func=func, decorator='property', coq_name=coq, heap='ds', heap_type='(list dyn)',
+                heap_get='getdl', heap_upd='dupd', obj_type='nat', params={}, signature=[('w', '(list itask)'), ('ds', '(list dyn)')],
+                ret=OPTZ, locals={'starts': ('list', 'Z'), 'ends': ('list', 'Z')}, int_truth=True, z_minmax=True,
+                obj_attrs={attr: (getter, OPTZ)},
+                expr_rewrites={'self.roots': ('(roots w)', NATS), 'self.__root.children': ('(roots w)', NATS)})
+
+
+SPECS += [wbs_date('start', 'src_wbs_start', 'start', 'd_start'), wbs_date('end', 'src_wbs_end', 'end', 'd_end')]
+
 # calc itself: the pre-checks, the reset of the summaries, one call of the pass per root (forward: in order; backward: by
 # descending index), the result.  `wbs.clone()` is the scheduler's own view of the WBS (`w` with the values `ds` - C10 is the
 # property about clone), `_check_loops` is not translated (it raises on dependency cycles only, which no WBS built through
@@ -203,12 +214,17 @@ def emit(repo):
             src = f.read()
     except OSError as e:
         return '', ['schedule.py: %s' % e]
+    sources = {'schedule.py': src}
     for sp in SPECS:
         try:
-            texts.append('(* schedule.py: %s.%s *)\n' % (sp['cls'], sp['func']))
-            texts.append(pylite.translate(src, dict(sp), OPS) + '\n')
-        except (pylite.Unsupported, SyntaxError) as e:
-            problems.append('schedule.py %s.%s: %s' % (sp.get('cls'), sp['func'], e))
+            fname = sp.get('file', 'schedule.py')
+            if fname not in sources:
+                with open(os.path.join(repo, 'src', 'pjplan', fname), encoding='utf-8') as f:
+                    sources[fname] = f.read()
+            texts.append('(* %s: %s.%s *)\n' % (fname, sp['cls'], sp['func']))
+            texts.append(pylite.translate(sources[fname], dict(sp), OPS) + '\n')
+        except (pylite.Unsupported, SyntaxError, OSError) as e:
+            problems.append('%s %s.%s: %s' % (sp.get('file', 'schedule.py'), sp.get('cls'), sp['func'], e))
     return ''.join(texts), problems
 
 
